@@ -85,20 +85,35 @@ def main():
     ap.add_argument("--tier", default="quick")
     ap.add_argument("--no-write", action="store_true")
     a = ap.parse_args()
-    muts = [m for m in M if a.only is None or a.only in (m["id"], m["prop"])]
+    only = set(a.only.split(",")) if a.only else None
+    muts = [m for m in M if only is None or m["id"] in only or m["prop"] in only]
     with ThreadPoolExecutor(max_workers=a.jobs) as ex:
         results = list(ex.map(lambda m: judge(m, a.tier), muts))
-    lines = ["# Mutation self-test results", "",
-             f"tier={a.tier}; generated by selftest/run.py on the tree at /repo HEAD. CAUGHT = the property's check printed a VIOLATION for it on the mutated worktree.", "",
-             "| mutation | property | baseline | status | mechanisms reported | what it does |", "|---|---|---|---|---|---|"]
     for r in results:
-        lines.append(f"| {r['id']} | {r['prop']} | {r.get('baseline', '')} | {r['status']} | {', '.join(r.get('mechanisms', []))[:160]} | {r['note']} |")
         print(f"{r['id']:36s} {r['prop']} {r['status']:12s} {r.get('baseline', '')} {', '.join(r.get('mechanisms', []))[:120]}")
-    if not a.no_write and a.only is None:
-        with open(os.path.join(HERE, "RESULTS.md"), "w") as f:
-            f.write("\n".join(lines) + "\n")
     caught = sum(1 for r in results if r["status"] == "CAUGHT")
     print(f"caught {caught}/{len(results)}")
+    if a.no_write:
+        return
+    # results accumulate in results.json (keyed by mutation id); RESULTS.md is regenerated from it
+    import json
+    store_path = os.path.join(HERE, "results.json")
+    store = json.load(open(store_path)) if os.path.exists(store_path) else {}
+    for r in results:
+        r["tier"] = a.tier
+        store[r["id"]] = r
+    json.dump(store, open(store_path, "w"), indent=1, sort_keys=True)
+    order = {m["id"]: i for i, m in enumerate(M)}
+    rows = sorted(store.values(), key=lambda r: order.get(r["id"], 999))
+    lines = ["# Mutation self-test results", "",
+             "Generated by selftest/run.py. Every mutation is applied to a scratch git worktree of /repo (removed afterwards); the repository's own 133 tests must still pass there; "
+             "CAUGHT = the property's check, pointed at the worktree with VERIF_REPO, printed a VIOLATION for that property.", "",
+             f"caught {sum(1 for r in rows if r['status'] == 'CAUGHT')} of {len(rows)} judged ({sum(1 for r in rows if r['status'].startswith('UNREALISTIC'))} unrealistic, i.e. the repository's own tests notice them)", "",
+             "| mutation | property | tier | baseline | status | mechanisms reported | what it does |", "|---|---|---|---|---|---|---|"]
+    for r in rows:
+        lines.append(f"| {r['id']} | {r['prop']} | {r.get('tier', '')} | {r.get('baseline', '')} | {r['status']} | {', '.join(r.get('mechanisms', []))[:160]} | {r['note']} |")
+    with open(os.path.join(HERE, "RESULTS.md"), "w") as f:
+        f.write("\n".join(lines) + "\n")
 
 
 if __name__ == "__main__":
